@@ -32,7 +32,12 @@ const (
 
 var mopNames = [...]string{"Load", "Store", "LoadOrStore", "LoadAndStore", "LoadOrCompute", "Compute", "LoadAndDelete", "Delete", "Clear", "Range", "RangeVisit", "Size", "RangeWithMutatingVisitor"}
 
-func (o MOp) String() string { return mopNames[o] }
+func (o MOp) String() string {
+	if int(o) >= len(mopNames) {
+		return mopName(o)
+	}
+	return mopNames[o]
+}
 
 // user function shapes for Compute
 type FnKind uint8
